@@ -273,6 +273,9 @@ func (c *checkSchema) collectAllowedJsonTypes(node schema.Node, ss map[string]sc
 		}
 		c.foundTypeNames[typeName] = struct{}{}
 		c.collectAllowedJsonTypes(getType(typeName, c.rootSchema, ss).RootNode(), ss) // can panic
+		// Only names on the current path indicate recursion: the same type may
+		// legitimately be reached twice through different alternatives.
+		delete(c.foundTypeNames, typeName)
 	}
 }
 
